@@ -390,6 +390,7 @@ def run(chk):
     _postpair_rule(chk, prog)
     _reap_rule(chk, prog)
     _staletrim_rule(chk, prog)
+    _fiberarity_rule(chk, prog)
 
 
 ACQUIRE = ("socket", "accept", "accept4", "open", "dup", "inotify_init1", "inotify_init", "epoll_create1", "timerfd_create",
@@ -882,3 +883,101 @@ def _staletrim_rule(chk, prog):
                               "waits that were cancelled or timed out stay queued, and keep their fibers alive, until the opposite "
                               "operation happens - on a quiet channel for ever" % (x.text()[:50], q, sorted(trimmers) or "none"))
     chk.floor(rule, 2, n)
+
+
+# janet_fiber call sites inside event-loop callbacks, where the function was admitted earlier, by the cfunction that
+# registered it: (unit, function) -> (unit, registering cfunction, number of arguments the callback passes)
+FIBER_ADMISSION = {
+    ("net.c", "net_callback_accept"): ("net.c", "cfun_stream_accept_loop", 1),
+    ("os.c", "janet_signal_callback"): ("os.c", "os_sigaction", 0),
+}
+
+
+def _admits(fn, argc):
+    """does `fn` refuse (raise) functions whose arity does not admit `argc` arguments"""
+    lo = hi = False
+    for x in fn.nodes:
+        if x.k == "bin" and x.op in (">", ">=", "<", "<=", "!="):
+            a, b = strip_casts(x.kids[0]), strip_casts(x.kids[1])
+            if a.k == "mem" and b.k == "int":
+                if a.field == "min_arity" and ((x.op == ">" and b.v == argc) or (x.op == ">=" and b.v == argc + 1)):
+                    lo = True
+                if a.field == "max_arity" and ((x.op == "<" and b.v == argc) or (x.op == "<=" and b.v == argc - 1)):
+                    hi = True
+    return lo and (hi or argc == 0)     # max_arity is never below 0: nothing to test for a call without arguments
+
+
+def _fiberarity_rule(chk, prog):
+    """janet_fiber(fn, capacity, argc, argv) returns NULL when fn does not accept argc arguments.  Code that builds a
+    fiber for a user-supplied function - the worker of net/accept-loop, a signal handler, a task - either tests the
+    result, or the function was admitted for exactly that argument count when it was registered.  `min_arity < 1`
+    is not such a test: it lets (fn [a b] ...) through, and the first connection dereferences NULL."""
+    rule = "C20-FIBERARITY"
+    chk.rule(rule, "the result of janet_fiber for a user-supplied function is tested for NULL, or the function was admitted for exactly the argument count it is started with")
+    byname = {}
+    for f in prog.all_funcs():
+        byname.setdefault((f.tu.name, f.name), f)
+    n = 0
+    for fn in prog.all_funcs():
+        for c in fn.calls("janet_fiber", "janet_fiber_reset"):
+            if fn.name in ("janet_fiber", "janet_fiber_reset"):
+                continue
+            n += 1
+            chk.instance(rule)
+            chk.analysed(fn)
+            off = 0 if c.callee == "janet_fiber" else 0
+            callee = strip_casts(c.args[0] if c.callee == "janet_fiber" else c.args[1])
+            argc = strip_casts(c.args[2])
+            # where the result goes
+            p = c.parent
+            while p is not None and p.k in ("cast", "paren"):
+                p = p.parent
+            res = None
+            if p is not None and p.k == "vardecl":
+                res = p.name
+            elif p is not None and p.k == "asg" and p.kids[0].k == "ref":
+                res = p.kids[0].name
+            tested = res is not None and any(
+                x.k == "bin" and x.op in ("==", "!=") and any(strip_casts(k).k == "ref" and strip_casts(k).name == res for k in x.kids) and
+                any(strip_casts(k).text() in ("NULL", "((void *)0)", "0") for k in x.kids) for x in fn.nodes) or \
+                (res is not None and any(x.k == "un" and x.op == "!" and strip_casts(x.kids[0]).k == "ref" and strip_casts(x.kids[0]).name == res for x in fn.nodes))
+            thunk = callee.k == "ref" and any(
+                (x.k == "vardecl" and x.name == callee.name and x.kids and strip_casts(x.kids[0]).k == "call" and
+                 strip_casts(x.kids[0]).callee in ("janet_thunk", "janet_thunk_delay")) for x in fn.nodes)
+            own_min = argc.k == "mem" and argc.field == "min_arity"
+            if tested:
+                chk.ok(rule, "%s: result of `%s` tested for NULL" % (fn.name, c.text()[:40]))
+            elif thunk and argc.k == "int" and argc.v == 0:
+                chk.ok(rule, "%s: a thunk started without arguments" % fn.name)
+            elif own_min:
+                chk.ok(rule, "%s: started with exactly the function's own minimum arity" % fn.name)
+            elif (fn.tu.name, fn.name) in FIBER_ADMISSION:
+                u, g, k = FIBER_ADMISSION[(fn.tu.name, fn.name)]
+                gf = byname.get((u, g))
+                if gf is None:
+                    raise AnalysisBroken("registering function %s:%s not found" % (u, g))
+                if argc.k == "int" and argc.v == k and _admits(gf, k):
+                    chk.ok(rule, "%s: admitted for %d argument(s) by %s" % (fn.name, k, g))
+                else:
+                    chk.violation(rule, fn.tu.name, fn.name, "unadmitted:" + g, c.loc,
+                                  "`%s` starts a user-supplied function with %s argument(s) and uses the fiber without a NULL test, but %s "
+                                  "does not refuse functions whose arity excludes that count (it needs `min_arity > %d`%s): such a function "
+                                  "makes janet_fiber return NULL and the callback dereferences it" % (
+                                      c.text()[:50], argc.text(), g, k, " and `max_arity < %d`" % k if k else ""))
+            elif fn.tu.name == "shell.c" and fn.name == "main" and "cli-main" in "".join(x.d.get("s", "") for x in fn.nodes if x.k == "str"):
+                # not a user-supplied function: the core library's own entry point - read its parameter list
+                from rules.c17_boot import _load
+                from jv import janetsrc as js
+                top = js.toplevel(_load())
+                params, _ = js.fn_parts(top["cli-main"][1]) if "cli-main" in top else (None, [])
+                names = [k.v for k in params.v] if params is not None else None
+                if names is not None and (len(names) == 1 or "&" in names or "&opt" in names) and argc.k == "int" and argc.v == 1:
+                    chk.ok(rule, "main: cli-main is defined in boot.janet with the parameter list %s" % names)
+                else:
+                    chk.violation(rule, "shell.c", "main", "cli-main-arity", c.loc,
+                                  "main starts cli-main with %s argument(s) but boot.janet defines it with %s" % (argc.text(), names))
+            else:
+                chk.violation(rule, fn.tu.name, fn.name, "unchecked", c.loc,
+                              "`%s`: janet_fiber returns NULL when the function does not accept %s argument(s); the result is used "
+                              "without a test and no admission check is known for this site" % (c.text()[:50], argc.text()))
+    chk.floor(rule, 8, n)
